@@ -89,7 +89,7 @@ static ps_priv_t *alloc_ps_msg(const ps_priv_t *msg, ev_src_t *sub) {
         memcpy(m, msg, sizeof(ps_priv_t));
         m->msg.sender = m_mem_ref((void *)m->msg.sender); // keep module alive until message is dispatched
         m->autofree = m_mem_ref(m->autofree); // keep autofree payload alive until last recipient is done with it
-        m->sub = sub;
+        m->sub = m_mem_ref(sub); // keep subscription alive until message is dispatched, even if module unsubscribes meanwhile
     }
     return m;
 }
@@ -98,6 +98,7 @@ static void ps_msg_dtor(void *data) {
     ps_priv_t *pubsub_msg = (ps_priv_t *)data;
     
     m_mem_unref(pubsub_msg->autofree);
+    m_mem_unref(pubsub_msg->sub);
     if (pubsub_msg->msg.sender) {
         m_mem_unref((void *)pubsub_msg->msg.sender);
     }
